@@ -24,6 +24,80 @@ SPEC_COMPONENTS = {
 SPEC_TYPES = {"def_types": "(ast.FunctionDef, ast.AsyncFunctionDef, ast.ClassDef)", "fdef_types": "(ast.FunctionDef, ast.AsyncFunctionDef)", "module": "core.parse(source)"}
 
 
+SURFACE_KINDS = ["top-level function", "top-level async function", "top-level class", "method of a top-level class", "attribute assigned in a top-level class body",
+                 "module-level assignment", "module-level annotated assignment", "module-level augmented assignment", "module-level tuple / list / starred unpacking", "chained assignment"]
+REP_MODULES = [
+    "def f():\n    pass\n\nasync def g():\n    pass\n\nclass C:\n    x = 1\n    y: int = 2\n\n    def m(self):\n        return 1\n\n    async def n(self):\n        return 2\n",
+    "a = 1\nb: int = 2\nc = 0\nc += 1\nd, e = 1, 2\n[h, i] = 3, 4\nj, *k = [5, 6, 7]\n(p, [q, *r]) = 0, [1, 2]\ns = t = 9\n",
+    "class Outer:\n    z1, z2 = 1, 2\n    w = v = 3\n\n    class Inner:\n        pass\n\n    @staticmethod\n    def sm():\n        return 0\n\n    @classmethod\n    def cm(cls):\n        return 1\n\n\nclass _Private:\n    def __init__(self):\n        self.q = 1\n",
+    "def aB():\n    return 1\n\nclass lower_case:\n    CamelAttr = 1\n\n    def MixedCase(self):\n        return 2\n\nSomeVar = 3\nother_var = 4\n_x = 5\n",
+]
+
+
+def _expected_surface(src):
+    """independent reading of C07's surface: {kind: names}"""
+    tree = ast.parse(src)
+    out = {k: set() for k in SURFACE_KINDS}
+
+    def names(t):
+        if isinstance(t, ast.Name):
+            yield t.id
+        elif isinstance(t, (ast.Tuple, ast.List)):
+            for e in t.elts:
+                yield from names(e)
+        elif isinstance(t, ast.Starred):
+            yield from names(t.value)
+    for st in tree.body:
+        if isinstance(st, ast.FunctionDef):
+            out["top-level function"].add(st.name)
+        elif isinstance(st, ast.AsyncFunctionDef):
+            out["top-level async function"].add(st.name)
+        elif isinstance(st, ast.ClassDef):
+            out["top-level class"].add(st.name)
+            for c in st.body:
+                if isinstance(c, (ast.FunctionDef, ast.AsyncFunctionDef)):
+                    out["method of a top-level class"].update({f"{st.name}.{c.name}", c.name})
+                elif isinstance(c, ast.Assign):
+                    for t in c.targets:
+                        out["attribute assigned in a top-level class body"].update(names(t))
+                elif isinstance(c, ast.AnnAssign) and c.value is not None:
+                    out["attribute assigned in a top-level class body"].update(names(c.target))
+        elif isinstance(st, ast.Assign):
+            kind = "chained assignment" if len(st.targets) > 1 else ("module-level assignment" if isinstance(st.targets[0], ast.Name) else "module-level tuple / list / starred unpacking")
+            for t in st.targets:
+                out[kind].update(names(t))
+        elif isinstance(st, ast.AnnAssign) and st.value is not None:
+            out["module-level annotated assignment"].update(names(st.target))
+        elif isinstance(st, ast.AugAssign):
+            out["module-level augmented assignment"].update(names(st.target))
+    return out
+
+
+def _run_safe_block(args):
+    """forked worker: run the real safe block on each representative module; -> {kind: [(module, missing name), ...]} or an error string"""
+    import sys
+    repo, block_src, union_var = args
+    sys.path.insert(0, repo)
+    try:
+        from pyrefact import core, parsing
+        code = compile(block_src, "<safe block>", "exec")
+    except Exception as ex:  # noqa: BLE001
+        return f"{type(ex).__name__}: {ex}"
+    missing = {}
+    for src in REP_MODULES:
+        env = {"core": core, "parsing": parsing, "ast": ast, "source": src, "preserve": frozenset()}
+        try:
+            exec(code, env)         # noqa: S102
+        except Exception as ex:  # noqa: BLE001
+            return f"{type(ex).__name__}: {ex}"
+        got = set(env.get(union_var, ()))
+        for kind, want in _expected_surface(src).items():
+            for nm in sorted(want):
+                if nm not in got:
+                    missing.setdefault(kind, []).append((src, nm))
+    return missing
+
+
 def generate(g: Gen):
     fn, text = find_def("main", "format_code")
     g.sha = segment_sha(text, fn)
@@ -33,9 +107,22 @@ def generate(g: Gen):
         raise NotGenerated("format_code: `if safe:` block not found")
     blk = safe_if[0]
     assigns = {ast.unparse(s.targets[0]): s for s in blk.body if isinstance(s, ast.Assign) and len(s.targets) == 1}
-    for nm, want in {**SPEC_TYPES, **SPEC_COMPONENTS}.items():
-        ok = nm in assigns and ast.unparse(assigns[nm].value) == ast.unparse(ast.parse(want, mode="eval").body)
-        g.oblige("table", f"safe-component:{nm}", [], z3.BoolVal(bool(ok)), assigns[nm].lineno if nm in assigns else blk.lineno)
+    # What the safe set must contain is decided by EXECUTING the real `if safe:` block (compiled from the source text, with the real core /
+    # parsing modules, in a forked worker) on representative modules that exercise every kind of surface element, and comparing the set it
+    # builds with an independent reading of the property's surface.  Identical text to the known-good block is the fast path.
+    same_text = all(nm in assigns and ast.unparse(assigns[nm].value) == ast.unparse(ast.parse(want, mode="eval").body) for nm, want in {**SPEC_TYPES, **SPEC_COMPONENTS}.items())
+    from standins import pipeline as P
+    unions0 = [s_ for s_ in blk.body if isinstance(s_, ast.Assign) and isinstance(s_.value, ast.BinOp) and isinstance(s_.value.op, ast.BitOr) and ast.unparse(s_.targets[0]) not in SPEC_COMPONENTS]
+    if len(unions0) != 1:
+        raise NotGenerated("format_code: the union assignment of the safe block not found")
+    missing = P.pool_map(_run_safe_block, [(P.REPO, ast.unparse(ast.Module(body=blk.body, type_ignores=[])), ast.unparse(unions0[0].targets[0]))], chunksize=1, procs=1)[0]
+    if isinstance(missing, str):
+        raise NotGenerated(f"the safe block cannot be executed on the representative modules: {missing}")
+    for kind in SURFACE_KINDS:
+        bad = missing.get(kind, [])
+        g.oblige("table", f"safe-set-contains:{kind}", [], z3.BoolVal(not bad), blk.lineno,
+                 replay=lambda m, kind=kind, bad=tuple(bad): {"reproduced": True, "input": f"module {bad[0][0]!r}" if bad else "", "observed": f"safe set lacks {bad[0][1]!r}" if bad else "", "required": f"every {kind} is in the safe set"})
+    g.assumptions.add("safe set evaluated by running the real block on %d representative modules (one or more per kind of surface element); same text as the reviewed block: %s" % (len(REP_MODULES), same_text))
     # the union
     unions = [s for s in blk.body if isinstance(s, ast.Assign) and isinstance(s.value, ast.BinOp) and isinstance(s.value.op, ast.BitOr) and ast.unparse(s.targets[0]) not in SPEC_COMPONENTS]
     if len(unions) != 1:
